@@ -42,11 +42,12 @@ CHECKS = {
              'table: value, raise, SystemExit mapping, unexpected signal = OSError everywhere + completed wait, SIGTERM), '
              'C12_order_free / _runs (every answer ever given depends on outcome and kill history only), C12_thread_*. Tie: every '
              'run executes real mpservice Process/Thread cases (outcome x kill phase x signal x accessor order, kill phases made '
-             'without hooks, each in a fresh interpreter/session) and replays the observed accessor answers through the model\'s '
+             'without hooks, plus signals at random moments, in the log-flush window, in the middle of a 30 MB message and under an '
+             'adversarial exit-status schedule; each in a fresh interpreter/session) and replays the observed accessor answers through the model\'s '
              'own step function (drv procoutcome); a monitor evaluates the property table on every run.',
         note='Lean 4 kernel + axioms {propext, Classical.choice, Quot.sound}; model hand-written, tied by sampled real runs; OS schedule and '
              'exact kill moment are sampled, not controlled (partial: the quantifier over interleavings is carried by the theorems only); '
-             'pipe/EOF/exit-status/Future semantics modelled, not verified; requires fixes F13, F15, F22 (fixes/) in /repo to pass.',
+             'pipe/EOF/exit-status/Future semantics modelled, not verified; requires fixes F13, F15, F22, F24 (fixes/) in /repo to pass.',
         ref='§5 C12', engine='E4-processes+lean'),
     'C20': dict(
         technique='Lean 4 proof (FIFO conservation invariant + progress + decreasing measure over an LTS model of child buffer, feeder, bounded pipe, logger thread, collector and finalizer) + differential replay of real logging runs through the model',
@@ -59,7 +60,7 @@ CHECKS = {
              'logpipe): same handled sequence, same count at join; a monitor evaluates lost/duplicate/order/hang on every run.',
         note='Lean 4 kernel + axioms {propext, Quot.sound}; model hand-written, tied by sampled real runs; OS schedule sampled, not controlled '
              '(partial: timing of result delivery vs. log flushing is quantified by the theorems only); pipe capacity abstracted to records; '
-             'multiprocessing.Queue feeder semantics modelled, not verified; requires fix F15 (fixes/) in /repo to pass.',
+             'multiprocessing.Queue feeder semantics modelled, not verified; requires fixes F15 (+F22) and F23 (fixes/) in /repo to pass.',
         ref='§5 C20', engine='E4-processes+lean'),
 }
 
